@@ -785,6 +785,10 @@ fn run_ops<A: AbcX>(be: &str, seed: u64, ops: &[&str]) -> String {
                     Some(_) => "count||ok".to_string(),
                 }
             }
+            // (self-test of the orchestrator's watchdog only; never generated)
+            "selfhang" => loop {
+                std::thread::sleep(std::time::Duration::from_secs(1));
+            },
             _ => panic!("bad op {}", op),
         };
         out.push(rec);
@@ -1252,7 +1256,16 @@ struct ChildOut {
 fn run_child(exe: &str, asan: bool, lines: &[String]) -> Vec<ChildOut> {
     let mut res: Vec<ChildOut> = Vec::with_capacity(lines.len());
     let mut next = 0usize;
+    let mut hangs = 0usize;
     while next < lines.len() {
+        if hangs >= 2 {
+            // a kernel that does not terminate hangs case after case: stop paying the time-out
+            while next < lines.len() {
+                res.push(ChildOut { verdict: "NOTRUN(after-repeated-hangs)".to_string(), records: None });
+                next += 1;
+            }
+            break;
+        }
         let mut cmd = Command::new(exe);
         cmd.arg("exec").stdin(Stdio::piped()).stdout(Stdio::piped()).stderr(Stdio::piped());
         if asan {
@@ -1284,6 +1297,36 @@ fn run_child(exe: &str, asan: bool, lines: &[String]) -> Vec<ChildOut> {
             s
         });
         let stdout = BufReader::new(child.stdout.take().unwrap());
+        // watchdog: a child that prints no progress line for LM_FP_HANG_SECS (default 40) seconds is
+        // killed and the case it had begun gets the verdict HANG (a kernel that no longer terminates
+        // must not hang the check)
+        let progress = std::sync::Arc::new(std::sync::atomic::AtomicU64::new(0));
+        let done = std::sync::Arc::new(std::sync::atomic::AtomicBool::new(false));
+        let hung = std::sync::Arc::new(std::sync::atomic::AtomicBool::new(false));
+        let limit: u64 = std::env::var("LM_FP_HANG_SECS").ok().and_then(|s| s.parse().ok()).unwrap_or(40);
+        let watchdog = {
+            let (progress, done, hung, pid) = (progress.clone(), done.clone(), hung.clone(), child.id());
+            std::thread::spawn(move || {
+                use std::sync::atomic::Ordering::SeqCst;
+                let mut last = progress.load(SeqCst);
+                let mut idle = 0u64;
+                while !done.load(SeqCst) {
+                    std::thread::sleep(std::time::Duration::from_millis(250));
+                    let now = progress.load(SeqCst);
+                    if now != last {
+                        last = now;
+                        idle = 0;
+                    } else {
+                        idle += 1;
+                        if idle >= 4 * limit {
+                            hung.store(true, SeqCst);
+                            let _ = Command::new("kill").arg("-9").arg(pid.to_string()).status();
+                            return;
+                        }
+                    }
+                }
+            })
+        };
         let mut begun: Option<usize> = None;
         let mut lastop = String::new();
         for l in stdout.lines() {
@@ -1291,6 +1334,7 @@ fn run_child(exe: &str, asan: bool, lines: &[String]) -> Vec<ChildOut> {
                 Ok(l) => l,
                 Err(_) => break,
             };
+            progress.fetch_add(1, std::sync::atomic::Ordering::SeqCst);
             if l.starts_with("BEGIN ") {
                 begun = Some(next);
                 lastop.clear();
@@ -1308,11 +1352,16 @@ fn run_child(exe: &str, asan: bool, lines: &[String]) -> Vec<ChildOut> {
             }
         }
         let status = child.wait().ok();
+        done.store(true, std::sync::atomic::Ordering::SeqCst);
+        let _ = watchdog.join();
         let _ = writer.join();
         let err = errt.join().unwrap_or_default();
         if next < lines.len() {
             // the child died (or stopped) before finishing: blame the case it had begun
-            let verdict = if let Some(pos) = err.find("ERROR: AddressSanitizer:") {
+            let verdict = if hung.load(std::sync::atomic::Ordering::SeqCst) {
+                hangs += 1;
+                format!("HANG@{}", lastop)
+            } else if let Some(pos) = err.find("ERROR: AddressSanitizer:") {
                 let kind: String = err[pos + 24..].trim_start().chars().take_while(|c| !c.is_whitespace()).collect();
                 format!("ASAN({})@{}", kind, lastop)
             } else {
